@@ -195,13 +195,14 @@ Example completed_example :
 Proof. vm_compute. reflexivity. Qed.
 
 (* ---------------------------------------------------------------- finding C11-1
-   The faithful model of the unfixed code releases a family twice on a
-   disciplined history: peer 2 (GR for IPv6 only) sends End-of-RIB for IPv4
-   after IPv4 was already released when peer 1 came up without GR. *)
-Lemma C11_family_released_exactly_once_refuted :
+   (repaired in the repository by a `fix:` commit; Model/Deferral.v rd_step is
+   the repaired behaviour).  The model of the code as it was released a family
+   twice on a disciplined history: peer 2 (GR for IPv6 only) sends End-of-RIB
+   for IPv4 after IPv4 was already released when peer 1 came up without GR. *)
+Lemma C11_unfixed_released_twice :
   exists (c : config) (ins : list rdinput) (f : fam),
     disciplined c ins = true /\ deferred c f = true /\
-    (releases f (rd_trace (fst (rd_new c (Some 360%N))) ins) > 1)%nat.
+    (releases f (rd_trace_unfixed (fst (rd_new c (Some 360%N))) ins) > 1)%nat.
 Proof.
   exists [(1, [65537; 131073]); (2, [131073])],
          [PeerEstablished 1 []; PeerEstablished 2 [131073]; EorReceived 2 65537], 65537.
